@@ -185,3 +185,82 @@ registry.register("C20", {
     "explanation": "Coq theorems C20_* over the abstract dc stream model for all oracles and schedules; monitor dcsim_judge "
                    "(extracted, with soundness theorem) applied to real simulated exchanges under seeded network faults",
 })
+
+
+# ---------------------------------------------------------------------------------------------
+# dcrecv: the receiver state machine alone
+# ---------------------------------------------------------------------------------------------
+
+def gen_dcrecv(rng):
+    total = rng.choice([0, 1, 100, 1100, 1101, 3000, 6000, 12000])
+    n = rng.choice([3, 8, 20, 60])
+    c = [rng.randrange(1 << 32), total]
+    cover = 0
+    for _ in range(n):
+        r = rng.random()
+        if r < 0.45:
+            kind = 0
+        elif r < 0.6:
+            kind = 1
+        elif r < 0.75:
+            kind = 2
+        elif r < 0.85:
+            kind = 3
+        else:
+            kind = 4
+        pn = rng.randrange(48)
+        ln = rng.choice([0, 9, 99, 499, 1099, rng.randrange(1100)])
+        a = pn + 48 * ln
+        # offsets: mostly walking forward so that streams complete, sometimes anywhere
+        if rng.random() < 0.7:
+            b = cover
+            cover = min(total, cover + ln + 1)
+        else:
+            b = rng.randrange(total + 1)
+        if kind >= 2:
+            a, b = rng.randrange(1 << 16), 0
+        c += [kind, a, b]
+    c += [3, 0, 0, 4, 3999, 0, 4, 3999, 0, 4, 3999, 0, 4, 3999, 0, 3, 0, 0]
+    return c
+
+
+def fixed_dcrecv(tier):
+    return [
+        [5, 5000, 0, 0, 0, 0, 48, 1000, 4, 4095, 0, 3, 0, 0, 2, 0, 0, 1, 49, 2000, 0, 97, 3000, 4, 4095, 0, 3, 0, 0],
+        [7, 100, 0, 48 * 99, 0, 2, 0, 0, 2, 0, 0, 4, 4095, 0, 2, 0, 0, 3, 0, 0],
+        [9, 0, 0, 0, 0, 3, 0, 0, 4, 1, 0],
+    ]
+
+
+def nontrivial_dcrecv(case, out):
+    try:
+        i = out.index(-1)
+    except ValueError:
+        return False
+    pairs = out[1:i]
+    return 1 in pairs[0::2] and out[i + 1] > 0
+
+
+def histogram_dcrecv(cases, outs):
+    h = {"accepted": 0, "dup_refused_Duplicate": 0, "dup_refused_other": 0, "fresh_refused": 0, "eof": 0, "acked_pns": 0}
+    for o in outs:
+        if o.startswith("!"):
+            continue
+        v = [(-int(t[1:], 16) if t.startswith("-") else int(t, 16)) for t in o.split()]
+        i = v.index(-1)
+        for d, code in zip(v[1:i:2], v[2:i:2]):
+            if d == 1:
+                h["dup_refused_Duplicate" if code == 1 else ("dup_refused_other" if code == 2 else "accepted")] += 1
+            elif code == 0:
+                h["accepted"] += 1
+            else:
+                h["fresh_refused"] += 1
+        h["eof"] += v[i + 7]
+        h["acked_pns"] += v[i + 5]
+    return h
+
+
+registry.PROPS["C20"]["components"].append(
+    {"name": "dcrecv", "gen": gen_dcrecv, "fixed": fixed_dcrecv, "quick": 3000, "thorough": 200000, "model": False,
+     "valid": lambda c: len(c) >= 2 and (len(c) - 2) % 3 == 0 and all(0 <= v < (1 << 40) for v in c),
+     "nontrivial": nontrivial_dcrecv, "histogram": histogram_dcrecv})
